@@ -418,11 +418,12 @@ func main() {
 	}
 	r.MaybeReplay()
 	st := &stats{}
-	runPairs(r, st)
-	runModifiers(r, st)
-	runTriples(r, st)
+	// the small passes first: under load the time budget must not be spent before they ran
 	runFullySpecified(r, st)
 	runFullySpecified3(r, st)
+	runTriples(r, st)
+	runModifiers(r, st)
+	runPairs(r, st)
 	r.Set("evaluations", int(st.evals))
 	r.Set("accepted_by_parser", int(st.accepted))
 	r.Set("distinct_nontrivial", int(st.nontrivial))
